@@ -13,7 +13,7 @@ import (
 
 // design v4: two body types with the same member names (tags, ids) whose
 // second array differs in element type; a required query parameter that also
-// has a default.
+// has a default, and a required array-of-string query parameter with a default.
 func VerifC04_v4_first() {
 	lim := newWireInt("lim", true)
 	body := &server.FirstRequestBody{}
@@ -27,6 +27,12 @@ func VerifC04_v4_first() {
 	if lim.kind != wAbsent {
 		query.Set("lim", lim.raw)
 	}
+	namesPresent := nondetBool("names-present")
+	var names []string
+	if namesPresent {
+		names = []string{nondetStringUpTo("name", 1)}
+		query["names"] = names
+	}
 	called := 0
 	endpoint := func(ctx context.Context, p any) (any, error) { called++; return nil, nil }
 	dec := func(*http.Request) goahttp.Decoder {
@@ -34,7 +40,7 @@ func VerifC04_v4_first() {
 	}
 	w := newRecWriter()
 	server.NewFirstHandler(endpoint, &stubMux{}, dec, recEncoder(), nil, nil).ServeHTTP(w, newRequest("POST", query))
-	valid := lim.kind == wNumber
+	valid := lim.kind == wNumber && namesPresent
 	verifAssert("endpoint-runs-iff-request-valid", (called == 1) == valid)
 	if called == 0 {
 		verifAssert("rejected:exactly-one-400", w.nHeaders == 1 && w.status == http.StatusBadRequest)
@@ -45,6 +51,9 @@ func VerifC04_v4_first() {
 		parts["query:lim"] = lim.v
 	case wJunk:
 		parts["query:lim"] = lim.raw
+	}
+	if namesPresent {
+		parts["query:names"] = names
 	}
 	verifAssert("openapi:schema-accepts-iff-server-accepts", verifSchemaAccepts(openapiDoc, "POST /first", parts) == (called == 1))
 }
